@@ -136,7 +136,10 @@ def model_arg(pool):
 
 def nan_out(*arrays):
     for a in arrays:
-        a[...] = np.nan
+        if a.dtype.kind == "f":
+            a[...] = np.nan
+        else:
+            a[...] = (a + 1) % max(int(a.max()) + 1, 2)  # label arrays: rotate the class ids
 
 
 def run_op(pool, op):
@@ -184,7 +187,9 @@ def run_op(pool, op):
             if op["flag"]:
                 g.k_means_trainer = KMeansMachine(k, init_method=init_arr, max_iter=1, convergence_threshold=None)
             else:
-                g.means = init_arr
+                # assigning an array through the public setter stores that very object (plain attribute
+                # semantics, the caller's own doing): hand over a copy, the probe is about what training does
+                g.means = np.array(init_arr, copy=True)
             return g
         g = build(pool.init).fit(data)
         res = {"w": g.weights, "m": g.means, "v": g.variances}
@@ -271,7 +276,7 @@ def run_op(pool, op):
         res = {"t": m.transform(pool.X)}
     elif name == "ivector_fit":
         np.random.seed(case["np_seed"])
-        m = IVectorMachine(pool.ubm, dim_t=2, max_iterations=2)
+        m = IVectorMachine(pool.ubm, dim_t=2, max_iterations=2, update_sigma=bool(op["flag"]))
         import dask.bag as db
 
         m.fit(db.from_sequence(pool.stats, npartitions=2) if op["dask"] else pool.stats)
@@ -281,7 +286,7 @@ def run_op(pool, op):
             st = [sut.make_stats(s) for s in case["sessions"]]
             ub = sut.make_gmm(case["ubm"])
             np.random.seed(case["np_seed"])
-            mm = IVectorMachine(ub, dim_t=2, max_iterations=2)
+            mm = IVectorMachine(ub, dim_t=2, max_iterations=2, update_sigma=bool(op["flag"]))
             mm.fit(st)
             owned = [a for s in st for a in (s.n, s.sum_px, s.sum_pxx)] + [ub.variances]
             return mm, owned
@@ -298,6 +303,9 @@ def run_op(pool, op):
             ww = WCCN().fit(Xc, yc)
             return ww, [Xc, yc]
         probe = make_probe(train, ["weights"], None)
+    elif pool.X.shape[1] < 2:
+        # whitening a single feature is a refused degenerate shape (numpy.cov returns a 0-d array)
+        res = {"skipped": 0.0}
     else:  # whitening
         w = Whitening().fit(data)
         res = {"W": w.weights, "sub": w.input_subtract, "Y": w.transform(pool.X)}
